@@ -25,6 +25,7 @@ type c5obj struct {
 	parent int // -1: Obj
 	props  map[string]c5prop
 	hasUID bool
+	base   string // roots only: source of a non-obj value the root was born from ("" : an obj literal, child of Obj)
 }
 
 type c5forest struct{ objs []*c5obj }
@@ -48,6 +49,14 @@ func (f *c5forest) find(i int, name string) (int, c5prop, bool) {
 	}
 	return -1, c5prop{}, false
 }
+
+// rootBase returns the non-obj value the forest of i is rooted at ("" for Obj).
+func (f *c5forest) rootBase(i int) string {
+	c := f.chain(i)
+	return f.objs[c[len(c)-1]].base
+}
+
+var c5bases = []string{"[10, 20]", `"ab"`, "5", "1.5", "(1:3)", "[]", `""`, "0"}
 
 func (f *c5forest) uid(i int) string {
 	if _, p, ok := f.find(i, "uid"); ok {
@@ -163,6 +172,14 @@ func runC05(w *fw.W) {
 			switch {
 			case id == 0 || rng.Intn(7) == 0:
 				props, lit := newProps(id, true)
+				if rng.Intn(3) == 0 {
+					// a forest rooted at a value of another type: resolution walks root, the value, its prototype, …
+					base := c5bases[rng.Intn(len(c5bases))]
+					f.objs = append(f.objs, &c5obj{id: id, parent: -1, props: props, hasUID: true, base: base})
+					run(name + " := " + base + ".bear(" + lit + ")")
+					counters["roots_of_other_types"]++
+					break
+				}
 				f.objs = append(f.objs, &c5obj{id: id, parent: -1, props: props, hasUID: true})
 				run(name + " := " + lit)
 			case rng.Intn(5) == 0:
@@ -188,7 +205,7 @@ func runC05(w *fw.W) {
 					run(fmt.Sprintf("%s := %s.bro(o%d)", name, []string{"{}", "{zz: 1}"}[rng.Intn(2)], s))
 				case 2:
 					a := rng.Intn(id)
-					f.objs = append(f.objs, &c5obj{id: id, parent: f.objs[a].parent, props: cp})
+					f.objs = append(f.objs, &c5obj{id: id, parent: f.objs[a].parent, props: cp, base: f.objs[a].base})
 					run(fmt.Sprintf("%s := o%d.bro(o%d)", name, a, s))
 				default:
 					p := rng.Intn(id)
@@ -198,7 +215,7 @@ func runC05(w *fw.W) {
 			case rng.Intn(3) == 0:
 				s := rng.Intn(id)
 				props, lit := newProps(id, true)
-				f.objs = append(f.objs, &c5obj{id: id, parent: f.objs[s].parent, props: props, hasUID: true})
+				f.objs = append(f.objs, &c5obj{id: id, parent: f.objs[s].parent, props: props, hasUID: true, base: f.objs[s].base})
 				run(fmt.Sprintf("%s := o%d.bro(%s)", name, s, lit))
 			default:
 				p := rng.Intn(id)
@@ -327,6 +344,11 @@ func runC05(w *fw.W) {
 				qtag = fmt.Sprintf("|n%d|args%d", n, nargs)
 				expect("list-chain call", class, src, "["+strings.Join(wants, ", ")+"]", werr)
 				return
+			}
+			if f.rootBase(i) != "" && q >= 6 && q < 12 {
+				// questions about the built-in part of the chain (Obj/BaseObj owners, ancestors, own-key listing of
+				// values whose type lists something else) are asked of obj-rooted forests only
+				q = rng.Intn(6)
 			}
 			switch {
 			case q < 2:
